@@ -214,7 +214,8 @@ def record(kind, prm, stream16, cuts, twice, seed, extra_query_other=False, thin
     P = {k: prm[k] for k in ("kind", "W", "B", "S", "Theta0", "K", "WTol", "Allow", "Stale", "Sharp")}
     for chunk_raw, chunk in zip(chunks_of(stream16, cuts), chunks_of(stream_abs, cuts)):
         utils = np.array([util_float(v) for v in chunk], dtype=float)
-        cand = np.array([[float(v)] for v in chunk_raw]) if thin else np.zeros((len(chunk), 1))
+        # (bare managers / baseline strategies only count the candidates: 1-3 feature columns)
+        cand = np.array([[float(v)] for v in chunk_raw]) if thin else np.zeros((len(chunk), 1 + seed % 3))
         reps = 2 if twice else 1
         res = None
         for _ in range(reps):
